@@ -497,7 +497,7 @@ def check_absorb_small(ck, mod, ks, label, rulemap, maxlen=40):
     DATA = ("arg", f.param_index("data"))
     st = ("arg", 0)
     D = gf2.wzext(gf2.sym_word(("argw", di), 8), 32)
-    bad = None
+    bad = badr = None
     npaths = 0
     for L in range(maxlen + 1):
         ex = irx.Exec(f, mode.Handler(klen), mode.havoc_state(klen // 32), word_args=[di], auto=True, unrotate=True, split_max=32, arg_consts={si: L})
@@ -524,13 +524,14 @@ def check_absorb_small(ck, mod, ks, label, rulemap, maxlen=40):
                 if why is None and not mode.words_eq(final, S):
                     why = "state after absorbing: %s" % mode.first_diff(final, S)
             ins = {k_ for (o_, k_) in mode.ins_of(p) if o_ == DATA}
-            if why is None and not ins <= set(range(L)):
-                why = "reads data offsets %s with a size of %d" % (sorted(ins - set(range(L)))[:4], L)
+            if badr is None and not ins <= set(range(L)):
+                badr = (L, "reads data offsets %s with a size of %d" % (sorted(ins - set(range(L)))[:4], L))
             if why and bad is None:
                 bad = (L, why)
     c.ob(bad is None, "SMALL", "absorb-whole(size 0..%d)" % maxlen, "for every size 0..%d (%d straight paths): one permutation per 4-byte word with the domain in word 1, the word xored into word 3, "
-         "the length of a partial last word injected into word 1; only data[0, size) read" % (maxlen, npaths), "with size = %s: %s" % (bad[0] if bad else "?", bad[1] if bad else ""))
-    return 1
+         "the length of a partial last word injected into word 1" % (maxlen, npaths), "with size = %s: %s" % (bad[0] if bad else "?", bad[1] if bad else ""))
+    c.ob(badr is None, "SMALLMEM", "absorb-reads(size 0..%d)" % maxlen, "for every size 0..%d only data[0, size) is read" % maxlen, "with size = %s: %s" % (badr[0] if badr else "?", badr[1] if badr else ""))
+    return 2
 
 
 def _check_absorb_loop(c, f, ex, ps, hdr, klen, di, ri):
@@ -1157,7 +1158,7 @@ def _small_path(ex, p, f, A, kind, enc, L, klen, names, st):
     outs = mode.outs_of(p)
     in_name, out_name = ("m", "c") if enc else ("c", "m")
     IN, OUT = A[in_name], A[out_name]
-    conf = io = None
+    conf = io = memd = None
 
     def C(msg):
         nonlocal conf
@@ -1166,6 +1167,10 @@ def _small_path(ex, p, f, A, kind, enc, L, klen, names, st):
     def IO(msg):
         nonlocal io
         io = io or msg
+
+    def MEM(msg):
+        nonlocal memd
+        memd = memd or msg
     if problems(p):
         raise Broken("%s: with length %d the path has accesses the evaluation does not resolve (%s)" % (f.name, L, problems(p)[:2]))
     rv = p.end[1]
@@ -1173,7 +1178,7 @@ def _small_path(ex, p, f, A, kind, enc, L, klen, names, st):
         k = ex.subst(p, rv).const() if (rv is not None and not is_word(rv)) else None
         if ev or outs or k is None or (k & 0xFFFFFFFF) != 0xFFFFFFFF:
             IO("an input of %d byte(s) (shorter than a tag) is not refused with -1 before anything is called or written (calls %s, writes %s, returns %s)" % (L, [e[0] for e in ev], list(outs)[:2], k))
-        return conf, io
+        return conf, io, memd
     want_k = [gf2.wnot(mode.le_bytes([mode.inbyte(A["k"], 4 * i + b) for b in range(4)], 4)) for i in range(nk)]
     steps = word_steps(n)
     pos = [0]
@@ -1320,12 +1325,12 @@ def _small_path(ex, p, f, A, kind, enc, L, klen, names, st):
             C("calls after the mode is complete: %s" % [e[0] for e in ev[pos[0]:]])
     okal, badj = mode.alias_order_ok(p, IN, OUT)
     if not okal:
-        IO("input byte %s is loaded after output byte %s was stored: wrong when both share one buffer" % (badj, badj))
+        MEM("input byte %s is loaded after output byte %s was stored: wrong when both share one buffer" % (badj, badj))
     ins = {k_ for (o_, k_) in mode.ins_of(p) if o_ == IN}
     lim = n if enc else n + 8
     if not ins <= set(range(lim)):
-        IO("reads input offsets %s with an input of %d byte(s)" % (sorted(ins - set(range(lim)))[:4], lim))
-    return conf, io
+        MEM("reads input offsets %s with an input of %d byte(s)" % (sorted(ins - set(range(lim)))[:4], lim))
+    return conf, io, memd
 
 
 def check_cipher_small(ck, mod, f, label, rulemap, maxlen=40):
@@ -1340,7 +1345,7 @@ def check_cipher_small(ck, mod, f, label, rulemap, maxlen=40):
     A = {nm: irx.argsym(f, f.param_index(nm)) for nm in ("c", "m", "ad", "npub", "k", "clen", "mlen", "adlen")}
     li = f.param_index("mlen" if enc else "clen")
     st = mode.find_state_obj(f)
-    badc = badio = None
+    badc = badio = badmem = None
     npaths = 0
     top = maxlen if enc else maxlen + 8
     for L in range(top + 1):
@@ -1352,18 +1357,22 @@ def check_cipher_small(ck, mod, f, label, rulemap, maxlen=40):
             if any(e[0] == "cond-data" for e in p.events):
                 raise Broken("%s branches on data bits: not decided by the small-length rule" % f.name)
             npaths += 1
-            cf, io = _small_path(ex, p, f, A, kind, enc, L, klen, names, st)
+            cf, io, mm = _small_path(ex, p, f, A, kind, enc, L, klen, names, st)
             if cf and badc is None:
                 badc = (L, cf)
             if io and badio is None:
                 badio = (L, io)
+            if mm and badmem is None:
+                badmem = (L, mm)
     what = "%s 0..%d" % ("mlen" if enc else "clen", top)
     c.ob(badc is None, "SMALL", "whole-message(%s)" % what, "for every length in %s (%d straight paths, data symbolic): the calls, every permutation input and every output byte are those of the "
          "documented mode, word by word, whatever the loop structure" % (what, npaths), "with %s = %s: %s" % ("mlen" if enc else "clen", badc[0] if badc else "?", badc[1] if badc else ""))
-    c.ob(badio is None, "SMALLIO", "whole-message-io(%s)" % what, "for every length in %s: length stored, exactly the output bytes written, tag written / read right behind the message, every input byte "
-         "loaded before the output byte at its offset is stored, no read outside the input; decrypt returns check_tag's verdict and hands it (m, clen - 8); inputs shorter than a tag refused" % what,
+    c.ob(badio is None, "SMALLIO", "whole-message-io(%s)" % what, "for every length in %s: length stored, exactly the output bytes written, tag written / read right behind the message; "
+         "decrypt returns check_tag's verdict and hands it (m, clen - 8); inputs shorter than a tag refused" % what,
          "with %s = %s: %s" % ("mlen" if enc else "clen", badio[0] if badio else "?", badio[1] if badio else ""))
-    return 2
+    c.ob(badmem is None, "SMALLMEM", "whole-message-mem(%s)" % what, "for every length in %s: every input byte is loaded before the output byte at its offset is stored (in-place use), and nothing "
+         "outside the input is read" % what, "with %s = %s: %s" % ("mlen" if enc else "clen", badmem[0] if badmem else "?", badmem[1] if badmem else ""))
+    return 3
 
 
 def cipher_fns(mod, kinds):
